@@ -42,7 +42,9 @@ RULE = ("seeded random class specifications of the C01 generator (per field: def
         "x validator x alias/private name x on_setattr; per class: slots x frozen x cache_hash(+unsafe_hash) "
         "x kw_only x class on_setattr x pre/post hooks x exception base; chains up to depth 3, mixed "
         "slotted/dict bases, overridden names; plus fields literally named count/index); an original "
-        "built by the real initializer x history in {none, hash, reassign, hash+reassign, reassign+hash, "
+        "built by the real initializer (values carry IDENTITY separately from equality: opaque tokens whose == is "
+        "identity, tokens that are == to every other token of their key, empty lists (all ==, never the same object; "
+        "unhashed classes only), None/False/NOTHING; the encoding and the model see identity only) x history in {none, hash, reassign, hash+reassign, reassign+hash, "
         "delete}; evolve with every subset of the init aliases (all subsets up to 4 init fields in the "
         "thorough tier, sampled beyond / in quick) x {validators on/off, a callback raising, NOTHING as "
         "value} + malformed keys {private name, unknown, init=False field}; assoc (non-exception "
@@ -108,8 +110,8 @@ class Enc:
         self.cls, self.orig = cls, orig
 
     def val(self, v):
-        if isinstance(v, Tok):
-            return "VTok %d" % v.n
+        if isinstance(v, (Tok, LTok)):
+            return "VTok %d" % v.n            # identity, never equality
         if v is None:
             return "VNone"
         if v is attr.NOTHING:
@@ -188,8 +190,44 @@ class Enc:
         return out
 
 
+class EqTok(Tok):
+    """A value whose == / hash go by `key` while its identity (what the model and the encoding see) is `n`:
+    equal-but-distinct objects (equal instances of value classes, True/1/1.0, ...)."""
+    __slots__ = ("key",)
+
+    def __init__(self, n, key):
+        Tok.__init__(self, n)
+        self.key = key
+
+    def __eq__(self, other):
+        return isinstance(other, EqTok) and other.key == self.key
+
+    def __ne__(self, other):
+        return not self.__eq__(other)
+
+    def __hash__(self):
+        return hash(("EqTok", self.key))
+
+    def __repr__(self):
+        return "EqTok(%d, key=%d)" % (self.n, self.key)
+
+
+class LTok(list):
+    """A mutable container: every two of them are == (both empty), none is another; unhashable."""
+
+    def __init__(self, n):
+        list.__init__(self)
+        self.n = n
+
+    def __repr__(self):
+        return "LTok(%d)" % self.n
+
+
 def mkval(d):
-    """Value descriptors: n -> opaque token n, "N" -> NOTHING, "Z" -> None, "F" -> False."""
+    """Value descriptors: n -> opaque token n (== is identity), "N" -> NOTHING, "Z" -> None, "F" -> False,
+    ["E", n, key] -> token n that is == to every token with the same key, ["L", n] -> an empty list with identity n."""
+    if isinstance(d, (list, tuple)):
+        return EqTok(d[1], d[2]) if d[0] == "E" else LTok(d[1])
     if d == "N":
         return attr.NOTHING
     if d == "Z":
@@ -618,16 +656,24 @@ def subsets(rng, items, cap):
 
 
 class Toks:
-    """Fresh token numbers; now and then a falsy constant instead (None / False)."""
+    """Fresh value descriptors.  Identity is always fresh (a new token number); equality is not: a third of the
+    values are == to every other value of their key (two keys), some are empty lists (all == each other; only for
+    classes that are never hashed), now and then a falsy constant (None / False)."""
 
-    def __init__(self, rng=None):
+    def __init__(self, rng=None, lists_ok=False):
         self.n = 0
         self.rng = rng
+        self.lists_ok = lists_ok
 
     def __call__(self):
-        if self.rng is not None and self.rng.random() < 0.06:
+        r = self.rng.random() if self.rng is not None else 1.0
+        if r < 0.06:
             return self.rng.choice(["Z", "F"])
         self.n += 1
+        if r < 0.36:
+            return ["E", self.n, self.rng.randrange(2)]
+        if r < 0.46 and self.lists_ok:
+            return ["L", self.n]
         return self.n
 
 
@@ -656,7 +702,7 @@ def plans_for(cut, rng, tier):
     if cut.frozen and names and rng.random() < 0.2:
         hists.append([("s", rng.choice(names), None)])          # assignment fails: no change
     for hi, hist in enumerate(hists):
-        tk = Toks(rng)
+        tk = Toks(rng, lists_ok=not cut.spec["cache_hash"])
         kw = [(n, tk()) for n, k, d in sg if (not d) or rng.random() < 0.6]
         if kw and rng.random() < 0.05:
             j = rng.randrange(len(kw))
